@@ -179,6 +179,15 @@ func (x *X) Obs(format string, args ...any) {
 	}
 }
 
+// Eval counts one evaluated input of an enumeration harness (level "exploration");
+// nontrivial says whether the input is non-trivial by the harness's stated rule.
+func (x *X) Eval(nontrivial bool) {
+	Extra["evaluations"]++
+	if nontrivial {
+		Extra["nontrivial"]++
+	}
+}
+
 // Tracing reports whether observation text is kept (replay / sample runs).
 func (x *X) Tracing() bool { return x.trace }
 
